@@ -8,6 +8,7 @@ CONSTANTS
   Split = TRUE
   PeekStop = TRUE
   WireGaps = FALSE
+  CutStop = TRUE
 SPECIFICATION GSpec
 INVARIANT EmitSched
 CHECK_DEADLOCK FALSE
